@@ -128,10 +128,10 @@ CONFIG = {
         "pkg": "c13",
         "regress": "^TestRegress",
         "legs": [
-            {"run": "^TestAdd$", "quick": (120, 16), "thorough": (5000, 16)},
+            {"run": "^TestAdd$", "quick": (150, 16), "thorough": (5000, 16)},
             {"run": "^TestAddThroughREST$", "quick": (300, 2), "thorough": (8000, 4)},
         ],
-        "floors": {"add": {"nontrivial": 600, "multi-shard": 100, "failed": 100, "fault-survived": 50}, "add-through-rest": {"has-hidden-entry": 100}},
+        "floors": {"add": {"nontrivial": 600, "multi-shard": 100, "failed": 100, "fault-survived": 50}, "add-through-rest": {"has-hidden-entry": 80}},
         "assumptions": [
             QUIC,
             "several top-level entries imply wrap (ipfs-cluster-ctl forces it)",
